@@ -1,0 +1,327 @@
+//! Verification seam (cargo feature `verif`, off by default, add-only).
+//!
+//! A harness may install a per-thread [`Backend`]. While one is installed, the runtime shims
+//! below hand spawned futures and sleeps to it instead of the real runtime, and every
+//! `async_lock` acquisition made through [`async_lock_shim`] first passes a yield point, so a
+//! controlled executor can schedule around it. With no backend installed every shim forwards to
+//! the real crate, i.e. the feature is behaviour-neutral.
+//!
+//! Nothing of hannibal's own logic lives here: the spawner files and `service.rs` only gain a
+//! `use crate::verif::<shim> as <crate name>;` line, all their existing code is compiled
+//! unchanged against the shim.
+#![allow(missing_docs, missing_copy_implementations, clippy::unwrap_used, dead_code, unreachable_pub)]
+
+use std::{
+    cell::RefCell,
+    future::Future,
+    pin::Pin,
+    rc::Rc,
+    task::{Context, Poll},
+    time::Duration,
+};
+
+pub type BoxFuture = Pin<Box<dyn Future<Output = ()> + Send + 'static>>;
+
+/// What a controlled executor has to provide.
+pub trait Backend {
+    /// Take over a spawned task; returns an id usable with [`Backend::cancel`].
+    fn spawn(&self, fut: BoxFuture) -> u64;
+    /// A future that completes after `dur` of the backend's (virtual) time.
+    fn sleep(&self, dur: Duration) -> BoxFuture;
+    /// Cancel a task: its future is dropped the next time it would be scheduled.
+    fn cancel(&self, task: u64);
+    /// Called at every lock acquisition; `true` = suspend the caller once.
+    fn yield_at_lock(&self) -> bool;
+}
+
+thread_local! {
+    static BACKEND: RefCell<Option<Rc<dyn Backend>>> = const { RefCell::new(None) };
+}
+
+pub fn install(backend: Rc<dyn Backend>) {
+    BACKEND.with(|b| *b.borrow_mut() = Some(backend));
+}
+
+pub fn uninstall() {
+    BACKEND.with(|b| *b.borrow_mut() = None);
+}
+
+pub fn installed() -> bool {
+    BACKEND.with(|b| b.borrow().is_some())
+}
+
+fn backend() -> Option<Rc<dyn Backend>> {
+    BACKEND.with(|b| b.borrow().clone())
+}
+
+/// Spawns `fut` on the backend; the receiver yields the output, or `Canceled` if the task
+/// panicked (`Err(())` is delivered first in that case) or was cancelled.
+fn spawn_on<T: Send + 'static>(
+    backend: &Rc<dyn Backend>,
+    fut: impl Future<Output = T> + Send + 'static,
+) -> (u64, futures::channel::oneshot::Receiver<Result<T, ()>>) {
+    use futures::FutureExt as _;
+    let (tx, rx) = futures::channel::oneshot::channel();
+    let id = backend.spawn(Box::pin(async move {
+        // the wrapped future is dropped (at the end of this statement) before the join
+        // handle learns about the result, as on the real runtimes
+        let res = std::panic::AssertUnwindSafe(fut).catch_unwind().await;
+        let _ = tx.send(res.map_err(|_| ()));
+    }));
+    (id, rx)
+}
+
+/// Ready at once without a backend; otherwise suspends the caller once if the backend says so.
+pub struct YieldPoint(bool);
+
+pub fn yield_point() -> YieldPoint {
+    YieldPoint(false)
+}
+
+impl Future for YieldPoint {
+    type Output = ();
+    fn poll(mut self: Pin<&mut Self>, cx: &mut Context<'_>) -> Poll<()> {
+        if self.0 {
+            return Poll::Ready(());
+        }
+        self.0 = true;
+        match backend() {
+            Some(b) if b.yield_at_lock() => {
+                cx.waker().wake_by_ref();
+                Poll::Pending
+            }
+            _ => Poll::Ready(()),
+        }
+    }
+}
+
+/// Same paths as the parts of `async_lock` hannibal uses; guards are the real ones.
+pub mod async_lock_shim {
+    pub use ::async_lock::{MutexGuard, RwLockReadGuard, RwLockWriteGuard};
+
+    #[derive(Debug, Default)]
+    pub struct RwLock<T>(::async_lock::RwLock<T>);
+
+    impl<T> RwLock<T> {
+        pub const fn new(t: T) -> Self {
+            Self(::async_lock::RwLock::new(t))
+        }
+        pub async fn read(&self) -> RwLockReadGuard<'_, T> {
+            super::yield_point().await;
+            self.0.read().await
+        }
+        pub async fn write(&self) -> RwLockWriteGuard<'_, T> {
+            super::yield_point().await;
+            self.0.write().await
+        }
+        pub fn try_read(&self) -> Option<RwLockReadGuard<'_, T>> {
+            self.0.try_read()
+        }
+        pub fn try_write(&self) -> Option<RwLockWriteGuard<'_, T>> {
+            self.0.try_write()
+        }
+    }
+
+    #[derive(Debug, Default)]
+    pub struct Mutex<T>(::async_lock::Mutex<T>);
+
+    impl<T> Mutex<T> {
+        pub const fn new(t: T) -> Self {
+            Self(::async_lock::Mutex::new(t))
+        }
+        pub async fn lock(&self) -> MutexGuard<'_, T> {
+            super::yield_point().await;
+            self.0.lock().await
+        }
+        pub fn lock_blocking(&self) -> MutexGuard<'_, T> {
+            self.0.lock_blocking()
+        }
+        pub fn try_lock(&self) -> Option<MutexGuard<'_, T>> {
+            self.0.try_lock()
+        }
+    }
+}
+
+/// `tokio::{spawn, task::JoinHandle, time::sleep}` as used by `tokio_spawner.rs`.
+#[cfg(feature = "tokio_runtime")]
+pub mod tokio_shim {
+    use super::*;
+
+    pub fn spawn<F>(future: F) -> task::JoinHandle<F::Output>
+    where
+        F: Future + Send + 'static,
+        F::Output: Send + 'static,
+    {
+        match backend() {
+            Some(b) => task::JoinHandle(task::Inner::Virtual(spawn_on(&b, future).1)),
+            None => task::JoinHandle(task::Inner::Real(::tokio::spawn(future))),
+        }
+    }
+
+    pub mod task {
+        use super::*;
+
+        pub(super) enum Inner<T> {
+            Real(::tokio::task::JoinHandle<T>),
+            Virtual(futures::channel::oneshot::Receiver<Result<T, ()>>),
+        }
+
+        /// Dropping it detaches the task; awaiting yields `Err` if the task panicked or was
+        /// cancelled.
+        pub struct JoinHandle<T>(pub(super) Inner<T>);
+
+        #[derive(Debug)]
+        pub enum JoinError {
+            Real(::tokio::task::JoinError),
+            Panicked,
+            Cancelled,
+        }
+
+        impl<T> Future for JoinHandle<T> {
+            type Output = Result<T, JoinError>;
+            fn poll(self: Pin<&mut Self>, cx: &mut Context<'_>) -> Poll<Self::Output> {
+                match &mut self.get_mut().0 {
+                    Inner::Real(h) => Pin::new(h).poll(cx).map_err(JoinError::Real),
+                    Inner::Virtual(rx) => Pin::new(rx).poll(cx).map(|r| match r {
+                        Ok(Ok(t)) => Ok(t),
+                        Ok(Err(())) => Err(JoinError::Panicked),
+                        Err(_) => Err(JoinError::Cancelled),
+                    }),
+                }
+            }
+        }
+    }
+
+    pub mod time {
+        use super::*;
+
+        pub fn sleep(duration: Duration) -> BoxFuture {
+            match backend() {
+                Some(b) => b.sleep(duration),
+                None => Box::pin(::tokio::time::sleep(duration)),
+            }
+        }
+    }
+}
+
+/// `async_std::task::{spawn, JoinHandle, sleep}` as used by `async_spawner.rs`.
+#[cfg(feature = "async_runtime")]
+pub mod async_std_shim {
+    pub mod task {
+        use super::super::*;
+
+        enum Inner<T> {
+            Real(::async_std::task::JoinHandle<T>),
+            Virtual(futures::channel::oneshot::Receiver<Result<T, ()>>),
+        }
+
+        /// Dropping it detaches the task; awaiting a task that panicked or was cancelled
+        /// panics in the awaiter, as async-std's handle does.
+        pub struct JoinHandle<T>(Inner<T>);
+
+        pub fn spawn<F, T>(future: F) -> JoinHandle<T>
+        where
+            F: Future<Output = T> + Send + 'static,
+            T: Send + 'static,
+        {
+            match backend() {
+                Some(b) => JoinHandle(Inner::Virtual(spawn_on(&b, future).1)),
+                None => JoinHandle(Inner::Real(::async_std::task::spawn(future))),
+            }
+        }
+
+        impl<T> Future for JoinHandle<T> {
+            type Output = T;
+            fn poll(self: Pin<&mut Self>, cx: &mut Context<'_>) -> Poll<T> {
+                match &mut self.get_mut().0 {
+                    Inner::Real(h) => Pin::new(h).poll(cx),
+                    Inner::Virtual(rx) => Pin::new(rx).poll(cx).map(|r| match r {
+                        Ok(Ok(t)) => t,
+                        _ => panic!("Task polled after completion"),
+                    }),
+                }
+            }
+        }
+
+        pub fn sleep(duration: Duration) -> BoxFuture {
+            match backend() {
+                Some(b) => b.sleep(duration),
+                None => Box::pin(::async_std::task::sleep(duration)),
+            }
+        }
+    }
+}
+
+/// `smol::{spawn, Task, Timer}` as used by `smol_spawner.rs`.
+#[cfg(feature = "smol_runtime")]
+pub mod smol_shim {
+    use super::*;
+
+    enum Inner<T> {
+        Real(::smol::Task<T>),
+        Virtual {
+            id: u64,
+            rx: futures::channel::oneshot::Receiver<Result<T, ()>>,
+        },
+    }
+
+    /// Dropping it cancels the task unless it was detached; awaiting a task that panicked
+    /// panics in the awaiter, as `async_task::Task` does.
+    pub struct Task<T>(Option<Inner<T>>);
+
+    pub fn spawn<T: Send + 'static>(future: impl Future<Output = T> + Send + 'static) -> Task<T> {
+        match backend() {
+            Some(b) => {
+                let (id, rx) = spawn_on(&b, future);
+                Task(Some(Inner::Virtual { id, rx }))
+            }
+            None => Task(Some(Inner::Real(::smol::spawn(future)))),
+        }
+    }
+
+    impl<T> Task<T> {
+        pub fn detach(mut self) {
+            match self.0.take() {
+                Some(Inner::Real(t)) => t.detach(),
+                Some(Inner::Virtual { .. }) | None => {}
+            }
+        }
+    }
+
+    impl<T> Drop for Task<T> {
+        fn drop(&mut self) {
+            if let Some(Inner::Virtual { id, .. }) = self.0.take() {
+                if let Some(b) = backend() {
+                    b.cancel(id);
+                }
+            }
+        }
+    }
+
+    impl<T> Future for Task<T> {
+        type Output = T;
+        fn poll(self: Pin<&mut Self>, cx: &mut Context<'_>) -> Poll<T> {
+            match self.get_mut().0.as_mut() {
+                Some(Inner::Real(t)) => Pin::new(t).poll(cx),
+                Some(Inner::Virtual { rx, .. }) => Pin::new(rx).poll(cx).map(|r| match r {
+                    Ok(Ok(t)) => t,
+                    _ => panic!("Task polled after completion"),
+                }),
+                None => panic!("Task polled after completion"),
+            }
+        }
+    }
+
+    pub struct Timer;
+
+    impl Timer {
+        pub fn after(duration: Duration) -> BoxFuture {
+            match backend() {
+                Some(b) => b.sleep(duration),
+                None => Box::pin(async move {
+                    ::smol::Timer::after(duration).await;
+                }),
+            }
+        }
+    }
+}
